@@ -8,6 +8,15 @@ the dictionary and the layout on every call; only `page_no` is stored.
 -/
 namespace Chewing
 
+/-! ### pages -/
+
+/-- `len.div_ceil(per)` for `per > 0` (the form `Selecting.totalPage` computes) -/
+def pageCount (n per : Nat) : Nat := (n + per - 1) / per
+
+/-- the items a front end shows as page `p`: the first `per` strings of what `chewing_cand_Enumerate`
+    hands out on that page (`paginated_candidates` = everything from item `p * per` on) -/
+def pageItems {α : Type} (cs : List α) (per p : Nat) : List α := (cs.drop (p * per)).take per
+
 section
 variable {D L : Type} (env : Env D L)
 
